@@ -323,3 +323,65 @@ def subspan_ptr(csup: str) -> typing.Tuple[str, bool]:
     if all(v == off for v, size, off in vals):
         return ptr, False
     raise Closed('any_bitspan::subspan: pointer expression is neither offset_bytes nor min(offset_bytes, size): ' + ptr)
+
+
+# ---- bitspan::setZeros(length): which bytes it touches, as index terms over (offset_bytes, length_bytes_ceil, last_byte) ----
+
+SETZEROS_DEFS = {
+    'offset_bytes': 'offset_bits_/8U',
+    'offset_bits_mod': 'offset_bits_%8U',
+    'end_bits_mod': '(offset_bits_mod+length)%8U',
+    'length_bytes_ceil': '(offset_bits_mod+length+7U)/8U',
+    'last_byte': 'offset_bytes+length_bytes_ceil-1U',
+}
+
+
+def setzeros_accesses(csup: str) -> str:
+    """every statement of the body must be recognised; -> Coq `list zacc` in textual order (WalkerSafeCpp.v).  The meaning of the
+    index variables is pinned by SETZEROS_DEFS; the Coq side proves all accesses inside [offset/8, ceil((offset+length)/8))."""
+    m = re.search(r'inline VoidResult bitspan::setZeros\(\{\{\s*typename_unsigned_bit_length\s*\}\} length\)\{(.*?)\n\}', csup, flags=re.S)
+    if not m:
+        raise Closed('bitspan::setZeros not found')
+    body = re.sub(r'\{\{\s*typename_\w+\s*\}\}', 'T', m.group(1))
+    body = re.sub(r'\{\{\s*assert\([^}]*\}\}', '', body)
+    out: typing.List[str] = []
+    seen_defs = set()
+    guard_small = guard_zero = False
+    stmts = [x.strip() for x in re.split(r';|\n', body) if x.strip()]
+    for st in stmts:
+        flat = st.replace(' ', '')
+        if flat in ('{', '}', 'return{}'):
+            continue
+        if flat == 'if(length>size()){':
+            guard_small = True
+            continue
+        if flat == 'return-Error::SerializationBufferTooSmall':
+            continue
+        if flat == 'if(length==0){':
+            guard_zero = True
+            continue
+        d = re.fullmatch(r'constT(\w+)=(.*)', flat)
+        if d and d.group(1) in SETZEROS_DEFS:
+            if d.group(2) != SETZEROS_DEFS[d.group(1)]:
+                raise Closed('bitspan::setZeros: %s is defined as %s' % (d.group(1), d.group(2)))
+            seen_defs.add(d.group(1))
+            continue
+        if 'data_[' in flat or 'memset' in flat:
+            if not (guard_small and guard_zero and len(seen_defs) == len(SETZEROS_DEFS)):
+                raise Closed('bitspan::setZeros: access before the guards / index definitions')
+            mm = re.fullmatch(r'memset\(&data_\[(\w+)\],0,(\w+)\)', flat)
+            if mm:
+                if mm.group(2) != 'length_bytes_ceil' or mm.group(1) not in ('offset_bytes', 'last_byte'):
+                    raise Closed('bitspan::setZeros: memset shape %r' % flat)
+                out.append('ZMemset %s' % ('ZFirst' if mm.group(1) == 'offset_bytes' else 'ZLast'))
+                continue
+            idx = re.findall(r'data_\[([^\]]*)\]', flat)
+            rest = re.sub(r'data_\[[^\]]*\]', 'D', flat)
+            if not idx or any(i not in ('offset_bytes', 'last_byte') for i in idx) or 'memset' in rest or '[' in rest:
+                raise Closed('bitspan::setZeros: unrecognised access %r' % st)
+            out += ['ZByte %s' % ('ZFirst' if i == 'offset_bytes' else 'ZLast') for i in idx]
+            continue
+        raise Closed('bitspan::setZeros: unrecognised statement %r' % st)
+    if not out:
+        raise Closed('bitspan::setZeros: no access found')
+    return '[' + '; '.join(out) + ']'
